@@ -95,7 +95,7 @@ for C in ("AddMarkStep", "RemoveMarkStep"):
     contract(FMS, f"{C}.map", {"self": C, "mapping": "Mappable"}, returns=f"opt[{C}]",
              ensures=[f"(result is None) == ((({DEL.format(p='self.from_', a=1)}) and ({DEL.format(p='self.to', a=-1)})) or mpos(mapping, self.from_, 1) > mpos(mapping, self.to, -1))",
                       "result is not None ==> result.from_ == mpos(mapping, self.from_, 1) and result.to == mpos(mapping, self.to, -1) and result.mark == self.mark"],
-             props=["C17"])
+             props=["C17", "C13"])
     contract(FMS, f"{C}.merge", {"self": C, "other": "Step"}, returns=f"opt[{C}]",
              ensures=[f"result is not None ==> isinstance_{C}(other) and meq(narrow(other, '{C}').mark, self.mark) and self.from_ <= narrow(other, '{C}').to and self.to >= narrow(other, '{C}').from_",
                       f"result is not None ==> result.from_ == min(self.from_, narrow(other, '{C}').from_) and result.to == max(self.to, narrow(other, '{C}').to) and result.mark == self.mark",
